@@ -339,14 +339,69 @@ fn tanh_sinh<S: Sc>() {
     S::prove_m("tanh-sinh-weights-are-double-exponential-formula", S::b_close(out, reference, S::lit(1e-12)), S::b_gt((out - reference).sabs(), S::lit(1e-6)));
 }
 
+/// tanh-sinh level L >= 2 observed through the public function: only the centre evaluation is non-zero
+/// before level L (the running estimate then halves at every level and the stopping rule, with the tolerance
+/// placed between the level-(L-1) and level-L differences, fires exactly at level L); level L sees eps*v(x),
+/// so the returned value is pi/2^(L+1) + eps * sum_j w_Lj (v(x_j) + v(-x_j)).
+fn tanh_sinh_level<S: Sc>(level: usize) {
+    let calls = RefCell::new(0usize);
+    let xs: RefCell<Vec<f64>> = RefCell::new(vec![]);
+    let npts = |l: usize| if l == 0 { 3 } else { 3 * (1usize << (l - 1)) };
+    let start_of = |l: usize| 1 + (0..l).map(|k| 2 * npts(k)).sum::<usize>();
+    let (lo, hi) = (start_of(level), start_of(level + 1));
+    let f = |x: S| {
+        let e = *calls.borrow();
+        *calls.borrow_mut() += 1;
+        if e == 0 {
+            S::lit(1.0)
+        } else if e >= lo && e < hi {
+            if let Some(c) = x.concrete() {
+                xs.borrow_mut().push(c);
+            }
+            S::lit(EPS) * S::tape("v", &[x], -1.0, 1.0)
+        } else {
+            S::lit(0.0)
+        }
+    };
+    S::no_div_zero_forks();
+    let pi = std::f64::consts::PI;
+    let tol = 0.75 * pi / 2f64.powi(level as i32);
+    let out: Result<S, String> = integrate(S::lit(-1.0), S::lit(1.0), f, S::lit(tol));
+    let out = match out {
+        Ok(v) => v,
+        Err(_) => {
+            S::prove("tanh-sinh-returns-at-the-steered-level", S::b_const(false));
+            return;
+        }
+    };
+    S::reach("tanh-sinh-level");
+    S::prove("tanh-sinh-returns-at-the-steered-level", S::b_const(*calls.borrow() == hi));
+    let evaluated = xs.borrow().clone();
+    S::prove("tanh-sinh-level-evaluation-count", S::b_const(evaluated.len() == 2 * npts(level)));
+    let h = 0.5f64.powi(level as i32);
+    let half_pi = std::f64::consts::FRAC_PI_2;
+    let mut reference = S::lit(0.0);
+    for j in 0..npts(level) {
+        let t = (2 * j + 1) as f64 * h;
+        let u = half_pi * t.sinh();
+        let x = u.tanh();
+        let w = half_pi * h * t.cosh() / (u.cosh() * u.cosh());
+        let near = evaluated.iter().cloned().filter(|e| *e > 0.0).fold(f64::NAN, |b, e| if b.is_nan() || (e - x).abs() < (b - x).abs() { e } else { b });
+        S::prove("tanh-sinh-abscissa-is-double-exponential-formula", S::b_const((near - x).abs() <= 1e-13));
+        reference = reference + S::lit(w) * (S::tape("v", &[S::lit(near)], -1.0, 1.0) + S::tape("v", &[S::lit(-near)], -1.0, 1.0));
+    }
+    let got = (out - S::lit(pi / 2f64.powi(level as i32 + 1))) * S::lit(1.0 / EPS);
+    S::prove_m("tanh-sinh-weights-are-double-exponential-formula", S::b_close(got, reference, S::lit(1e-11)), S::b_gt((got - reference).sabs(), S::lit(1e-6)));
+}
+
 pub fn run(pr: &mut PropRun, t: &Tier) {
     pr.funcs(&[
         "integrate::{integrate_gaussian,integrate_gaussian_core,integrate_hermite,integrate_laguerre,integrate_chebyshev,integrate_chebyshev_second} as consumers of integrate::tables::WEIGHTS_*",
         "integrate::{integrate,integrate_core} as consumer of WEIGHTS_DE",
     ]);
     pr.bound("every row of the five Gaussian tables in the thorough tier (12+27+12+100+100); quick tier: all Legendre/Laguerre/Hermite rows and Chebyshev rows 1..24 plus every 8th row; per row all 2n polynomial coefficients symbolic (normalised by the absolute moments)");
-    pr.bound("tanh-sinh: levels 0..2 (the levels consumed before `integrate` can return with an unbounded tolerance)");
-    pr.outside("tanh-sinh levels 3..6 (not observable through the public function without its private state); rounding of symbolic operations");
+    pr.bound("tanh-sinh: all 7 levels (levels 0..2 jointly with an unbounded tolerance; levels 2..6 one by one, steering the stopping rule with a centre-only integrand)");
+    pr.outside("rounding of symbolic operations");
     pr.assume("reference moments are closed forms evaluated in f64 (relative error ~1e-15); the integrand is stateful (FnMut) and assumes row j consumes j+1 evaluations, which is itself an obligation");
     let mut jobs: Vec<super::Job> = vec![];
     for fam in [Fam::Legendre, Fam::Laguerre, Fam::Hermite, Fam::Chebyshev1, Fam::Chebyshev2] {
@@ -368,5 +423,10 @@ pub fn run(pr: &mut PropRun, t: &Tier) {
     }
     let cfg = t.cfg("C10:tanh-sinh(levels 0..2)");
     crate::job!(jobs, cfg, tanh_sinh);
+    for level in 2..=6usize {
+        let mut cfg = t.cfg(&format!("C10:tanh-sinh(level {})", level));
+        cfg.max_decisions = 200;
+        crate::job!(jobs, cfg, tanh_sinh_level, level);
+    }
     super::run_jobs(pr, jobs, t.threads);
 }
